@@ -58,7 +58,17 @@ def run(ctx):
         base = kfacsim.Config(rng, world=rng.choice([2, 2, 3, 4, 4, 6, 8]))
         base.cap_mb = 0.0
         base.ops = []
-        for _ in range(rng.randrange(2, ctx.budget(5, 9))):
+        directed = b % 4 == 0
+        if directed:
+            # directed corner: pre-divided eigenvalue products (held by the inverse worker AND broadcast), damping that
+            # changes between inverse updates, steps that are not inverse-update steps
+            from fractions import Fraction
+            base.method, base.colocate, base.prediv = 'eigen', True, True
+            base.hyper['damping'] = [Fraction(1, 4), Fraction(1, 8), Fraction(1, 2), Fraction(1, 16), Fraction(1, 3)]
+            base.hyper['inv_update_steps'] = rng.choice([2, 3])
+            ks = [k for k in range(2, base.world + 1) if base.world % k == 0]
+            base.k = rng.choice(ks)
+        for _ in range(rng.randrange(4 if directed else 2, ctx.budget(6, 9))):
             base.ops += ['f1'] * base.accum + ['s']
             if rng.random() < 0.2:
                 base.ops.append('f0')
